@@ -88,9 +88,11 @@ def response_def(draw, dialect, components):
 
 
 def _add_write_only(draw, s, dialect):
-    if isinstance(s, dict) and s.get("type") == "object" and s.get("properties") and draw(st.integers(0, 3)) == 0:
+    if isinstance(s, dict) and s.get("type") == "object" and s.get("properties") and draw(st.integers(0, 2)) > 0:
         s = copy.deepcopy(s)
         s["properties"]["secret"] = {"type": "string", "writeOnly": True}
+        if draw(st.booleans()):
+            s["properties"]["pin"] = {"type": "integer", "writeOnly": True}
     return s
 
 
@@ -170,8 +172,12 @@ def pair(draw):
             headers["Content-Type"] = value
         w_key = "*" if dialect == "2.0" else choice
         has_w = w_key in wit[key]
-        bmode = draw(st.sampled_from(["witness", "witness", "witness", "junk", "malformed", "other", "empty", "lines"]))
-        if bmode == "witness" and has_w:
+        bmode = draw(st.sampled_from(["witness", "witness", "witness", "witness+writeOnly", "junk", "malformed", "other", "empty", "lines"]))
+        if bmode == "witness+writeOnly" and has_w and isinstance(wit[key][w_key], dict):
+            # an otherwise conforming body that leaks one or both of the (possibly) writeOnly properties
+            leak = draw(st.sampled_from([{"secret": "s3"}, {"pin": 1234}, {"secret": "s3", "pin": 1234}]))
+            body = json.dumps({**wit[key][w_key], **leak})
+        elif bmode in ("witness", "witness+writeOnly") and has_w:
             body = json.dumps(wit[key][w_key])
         elif bmode == "junk":
             body = json.dumps(draw(st.sampled_from([None, 1, "x", [], {}, {"a": 1}, {"secret": "s"}])))
@@ -197,6 +203,37 @@ def pair(draw):
     else:
         headers["Content-Type"] = "application/json"
     inp.update(status=status, headers=headers, body=body)
+    return inp
+
+
+@st.composite
+def write_only_pair(draw):
+    """Focus slice for the writeOnly clause: one JSON response whose object schema has one or two writeOnly properties and an
+    otherwise conforming body that carries none, one or all of them (a general `pair` reaches this shape ~0.1% of the time)."""
+    dialect = draw(st.sampled_from(["3.0", "3.0", "3.1", "2.0"]))
+    s, w = draw(sg.object_schema(dialect, 1, allow_readonly=False))
+    s = copy.deepcopy(s)
+    s.setdefault("properties", {})
+    for gone in ("secret", "pin"):  # the generator's own property names never collide with the planted ones
+        s["properties"].pop(gone, None)
+    names = draw(st.sampled_from([["secret"], ["secret", "pin"], ["secret", "pin"]]))
+    key_w = "x-writeOnly" if dialect == "2.0" else "writeOnly"
+    for n in names:
+        s["properties"][n] = {"type": "string" if n == "secret" else "integer", key_w: True}
+    s.pop("maxProperties", None)
+    if s.get("additionalProperties") is False:
+        s.pop("additionalProperties")
+    components: dict = {}
+    schema = _maybe_ref(draw, s, components, dialect)
+    leak = draw(st.sampled_from([{}, {"secret": "s3"}, {"pin": 1234}, {"secret": "s3", "pin": 1234}]))
+    leak = {k: v for k, v in leak.items() if k in names}
+    body = {k: v for k, v in dict(w).items() if k not in ("secret", "pin")}
+    body.update(leak)
+    resp = {"description": "d", "schema": schema} if dialect == "2.0" else {"description": "d", "content": {"application/json": {"schema": schema}}}
+    inp = {"dialect": dialect, "responses": {draw(st.sampled_from(["200", "2XX", "default"])): resp}, "schemas": components, "shared_responses": {}, "status": 200,
+           "headers": {"Content-Type": "application/json"}, "body": json.dumps(body)}
+    if dialect == "2.0":
+        inp["produces"] = ["application/json"]
     return inp
 
 
@@ -386,31 +423,48 @@ def check_pair(ctx: Ctx, inp) -> None:
     d = _deref(responses[key], inp) if key is not None else {}
     nmedia = len(d.get("content", {})) if inp["dialect"] != "2.0" else len(inp.get("produces") or inp.get("global_produces") or [])
     nontrivial = key is not None and (len(responses) >= 2 or nmedia >= 2 or sel == "range" or any("*" in m for m in d.get("content", {})))
-    for name in _CHECKS:
-        chk = getattr(oc, name)
-        try:
-            case.validate_response(resp, checks=[chk])
-            got = False
-        except FailureGroup:
-            got = True
-        except Exception as exc:  # noqa: BLE001 - neither verdict: the check itself crashed
-            got = f"crash:{type(exc).__name__}"
-        e = exp[name]
-        classes = [f"dialect={inp['dialect']}", f"select={sel}", f"{name}:expected={e}", f"nmedia={min(nmedia, 3)}"]
-        if isinstance(responses.get(key), dict) and "$ref" in responses.get(key, {}):
-            classes.append("ref_response")
-        ctx.case(nontrivial=[inp, name] if nontrivial else None, classes=classes, sample={"check": name, "expected_deviates": e, "input": inp})
-        if e is None:
-            ctx.inconclusive_case(f"{name}: specification silent")
-            continue
-        if got != e:
-            direction = got if isinstance(got, str) else "false-alarm" if got else "missed-deviation"
-            ctx.disagree(signature(name, direction, inp, sel, key, d), f"{name}: implementation reports={got}, documentation says deviates={e} (selection={sel}, key={key})", input=inp)
+    # two passes over the same loaded schema / operation objects: a verdict must not depend on what was validated before
+    for round_ in (1, 2):
+        for name in _CHECKS:
+            chk = getattr(oc, name)
+            try:
+                case.validate_response(resp, checks=[chk])
+                got = False
+            except FailureGroup:
+                got = True
+            except Exception as exc:  # noqa: BLE001 - neither verdict: the check itself crashed
+                got = f"crash:{type(exc).__name__}"
+            e = exp[name]
+            classes = [f"dialect={inp['dialect']}", f"select={sel}", f"{name}:expected={e}", f"nmedia={min(nmedia, 3)}", f"pass={round_}"]
+            if isinstance(responses.get(key), dict) and "$ref" in responses.get(key, {}):
+                classes.append("ref_response")
+            if name == "response_schema_conformance" and round_ == 1 and '"writeOnly"' in json.dumps(d) + json.dumps(inp["schemas"]) and ('"secret"' in inp["body"] or '"pin"' in inp["body"]):
+                classes.append("body-carries-a-writeOnly-name")
+            ctx.case(nontrivial=[inp, name, round_] if nontrivial else None, classes=classes, sample={"check": name, "expected_deviates": e, "input": inp})
+            if e is None:
+                ctx.inconclusive_case(f"{name}: specification silent")
+                continue
+            if got != e:
+                direction = got if isinstance(got, str) else "false-alarm" if got else "missed-deviation"
+                sig = signature(name, direction, inp, sel, key, d)
+                if round_ == 2 and sig not in ctx.known_sigs:
+                    sig += ":second-validation-on-the-same-schema"
+                ctx.disagree(sig, f"{name} (validation #{round_} on this schema object): implementation reports={got}, documentation says deviates={e} (selection={sel}, key={key})", input=inp)
 
 
 def signature(name, direction, inp, sel, key, d):
     """Root-cause level classification."""
     short = {"status_code_conformance": "status", "content_type_conformance": "content_type", "response_headers_conformance": "headers", "response_schema_conformance": "schema"}[name]
+    if short == "schema" and direction == "missed-deviation" and '"pin"' in json.dumps(inp["responses"]) + json.dumps(inp["schemas"]) + json.dumps(inp["shared_responses"]):
+        # the only deviation is that ONE of the two writeOnly properties is present (removing it makes the body conform)?
+        try:
+            body = json.loads(inp["body"])
+        except Exception:  # noqa: BLE001
+            body = None
+        if isinstance(body, dict) and len({"secret", "pin"} & set(body)) == 1:
+            stripped = dict(inp, body=json.dumps({k: v for k, v in body.items() if k not in ("secret", "pin")}))
+            if oracle(stripped)[0]["response_schema_conformance"] is False:
+                return "schema:missed-deviation:one-of-several-writeOnly-properties-present"
     return f"{short}:{direction}"
 
 
@@ -501,7 +555,7 @@ def check_multifile(ctx: Ctx, inp) -> None:
 
 SUBS = [
     Sub("multifile", fn=check_multifile, strategy=multifile_case, quick=(8, 150), thorough=(16, 3000), timeout_quick=300, timeout_thorough=3000),
-    Sub("pairs", fn=check_pair, strategy=pair, quick=(16, 600), thorough=(16, 6000), timeout_quick=300, timeout_thorough=3000),
+    Sub("pairs", fn=check_pair, strategy=lambda: st.one_of(pair(), pair(), pair(), pair(), write_only_pair()), quick=(16, 600), thorough=(16, 6000), timeout_quick=300, timeout_thorough=3000),
 ]
 FLOOR = {"pairs": 2000, "multifile": 500}
 
